@@ -88,7 +88,10 @@ extern "C" __attribute__((noinline)) void h_reload() {
   // ---- optional continuation and an incremental second save
   uint32_t cont = verif_choice(0, 4);
   if (cont == 1) { ValidationState s; t.setState(altHash((uint8_t)verif_choice(2, 5)), s); }
-  if (cont == 2) { addAltHeader(w, 6, 3); PopData pd; t.acceptBlock(altHash(6), pd); ValidationState s; t.setState(altHash(6), s); }
+  if (cont == 2) {   // a new block whose ATV endorses the bootstrap block exactly `settlement interval` (3) blocks below it: the last timely position
+    addAltHeader(w, 6, 3); PopData pd; pd.atvs.push_back(makeATV(w, 1, 1, 2, 5)); t.acceptBlock(altHash(6), pd); ValidationState s; bool ok6 = t.setState(altHash(6), s);
+    if (T0 == 2 || T0 == 3) { verif_check(ok6, 6); verif_cover(4); }
+  }
   if (cont == 3) { auto* x = t.getBlockIndex(altHash(3)); t.invalidateSubtree(*x, BLOCK_FAILED_BLOCK); if (verif_cbool()) t.revalidateSubtree(*x, BLOCK_FAILED_BLOCK); }
   if (cont == 4) { PopData pd; t.acceptBlock(altHash(7), pd); if (verif_cbool()) { ValidationState s; t.setState(altHash(8), s); } }   // the body of an already saved header arrives and connects it and its waiting child
   if (cont) { auto wb = storage.generateWriteBatch(); adaptors::BlockBatchImpl batch(*wb); saveTrees(t, batch); wb->writeBatch(); verif_cover(2); }
